@@ -177,6 +177,22 @@ def values_stage(ctx, exe, drv):
         t = l.split(" ")
         if len(o) == 6:
             res[(t[1], t[2])] = o
+    # "numbers of one kind compare by magnitude": an independent numeric reading of same-kind number pairs
+    import struct
+
+    def num_of(tok):
+        if tok[0] == "n" or tok[0] == "i":
+            return int(tok[1:])
+        if tok[0] == "r":
+            return struct.unpack("<d", struct.pack("<Q", int(tok[1:], 16)))[0]
+        return None
+    for (a, b), o in res.items():
+        if a[0] in "nir" and a[0] == b[0] and not is_nan(a) and not is_nan(b):
+            x, y = num_of(a), num_of(b)
+            exp = "".join("1" if t else "0" for t in (x < y, x <= y, x > y, x >= y, x == y, x != y))
+            if o != exp:
+                ctx.fail("value-order:magnitude", "numbers of one kind do not compare by magnitude: %s vs %s gives %s (< <= > >= == !=), expected %s" % (a, b, o, exp),
+                         {"operands": [a, b], "impl": o, "expected": exp})
     olines, meta = [], []
     for (a, b), o in res.items():
         if (b, a) in res:
